@@ -20,7 +20,7 @@ pub fn extract(repo: &str, w: &mut World) -> Result<String, String> {
                         if !env.enabled(&f.attrs)? || !REQUIRED.contains(&name.as_str()) {
                             continue;
                         }
-                        out.function(w, Plan { head: String::new(), rust_name: name.clone(), lean_rel: name, self_ty: None, generics: HashMap::new(), sig: &f.sig, block: &f.block, required: true, trunc_sub: false });
+                        out.function(w, Plan { head: String::new(), rust_name: name.clone(), lean_rel: name, self_ty: None, generics: HashMap::new(), sig: &f.sig, block: &f.block, required: true, trunc_sub: false, ext: Default::default() });
                     }
                 }
             }
